@@ -186,3 +186,31 @@ def runAnalyze (fuel : Nat) (prog : Prog)
   | .ok _ => .error "unexpected result shape"
 
 end Go
+
+/-! ## Running the translated routing functions of the sio crew (`Crew.toMachines`, `Crew.allMachines`) -/
+
+namespace Go
+
+/-- `c.toMachines(ctx, msg)` of the translated program on a crew with the machines `ids` (in map
+    order = list order) -/
+def runToMachines (fuel : Nat) (prog : Prog) (ids : List String) (msg : V) : Except String (List String) :=
+  match initGlobals fuel prog with
+  | .error _ => .error "globals"
+  | .ok (g, h0) =>
+    let (ms, h1) : List (GV × GV) × Heap := ids.foldl (fun (acc : List (GV × GV) × Heap) id =>
+      let (m, h') := allocObj acc.2 "Machine" [(.str "Id", .str id)]
+      (acc.1 ++ [(.str id, m)], h')) ([], h0)
+    let (mm, h2) := allocObj h1 "map[string]*crew.Machine" ms
+    let (c, h3) := allocObj h2 "Crew" [(.str "Machines", mm)]
+    let (gm, h4) := ofV msg h3
+    match callFn fuel prog g ".toMachines" c [.other "context", gm] h4 with
+    | .error (.fuel) => .error "fuel"
+    | .error (.panic m) => .error ("panic:" ++ m)
+    | .error (.stuck m) => .error ("stuck:" ++ m)
+    | .ok ([res, .nil], _) =>
+      match sliceElems res with
+      | some xs => .ok (xs.filterMap (fun x => match x with | .str s => some s | _ => none))
+      | none => .error "result is not a slice"
+    | .ok _ => .error "unexpected result shape"
+
+end Go
